@@ -98,6 +98,13 @@ def run_batch(ctx, n_dated, n_fake, n_sd, stream, res, stats):
                 stats["raised"][r["exc"]] = stats["raised"].get(r["exc"], 0) + 1
             else:
                 per_site = np.bincount(ts.mutations_site, minlength=ts.num_sites)
+                # hypothesis of `parent_above`: at most one edge with child u covers the site of a mutation on u
+                mp = ts.sites_position[ts.mutations_site]
+                for x, u in zip(mp, ts.mutations_node):
+                    k = int(np.sum((ts.edges_child == u) & (ts.edges_left <= x) & (x < ts.edges_right)))
+                    stats["hyp_unique_parent_edge"][0] += int(k <= 1)
+                    stats["hyp_unique_parent_edge"][1] += 1
+                    stats["mutations_above_root_or_isolated"] += int(k == 0)
                 stats["multi_mut_sites"] += int(np.sum(per_site > 1))
                 stats["empty_sites"] += int(np.sum(per_site == 0))
                 floored = int(np.sum(r["out"] == c["min_time"]))
@@ -126,7 +133,7 @@ def run_batch(ctx, n_dated, n_fake, n_sd, stream, res, stats):
 
 def new_stats():
     return dict(dated={}, date_raised={}, origins={}, sel={}, raised={}, multi_mut_sites=0, empty_sites=0, floored_sites=0,
-                sampledata=0, sampledata_raised_by_bound=0)
+                sampledata=0, sampledata_raised_by_bound=0, hyp_unique_parent_edge=[0, 0], mutations_above_root_or_isolated=0)
 
 
 RULE = ("B: sites_time_from_ts on dated outputs of variational_gamma / inside_outside / maximization and on tree sequences with "
@@ -139,7 +146,7 @@ RULE = ("B: sites_time_from_ts on dated outputs of variational_gamma / inside_ou
 def run(ctx):
     res = Result()
     stats = new_stats()
-    run_batch(ctx, ctx.n(9, 150), ctx.n(40, 1500), ctx.n(40, 1500), 1, res, stats)
+    run_batch(ctx, ctx.n(9, 90), ctx.n(40, 1000), ctx.n(40, 1000), 1, res, stats)
     res.rule = RULE
     res.extra = dict(input_distribution=stats)
     return res
